@@ -288,7 +288,11 @@ def decorate(prop, it, rng2):
             if not no_warm and n >= 2 and "warm" not in case and rng2.random() < 0.3:
                 case["warm"] = rng2.randint(1, n - 1)
             if rng2.random() < 0.04 and case.get("ids", "int") == "int":
-                case["tnp"] = True
+                # numpy int64 timestamps; or unsigned ones (a `u4`/`u8` column of an event table) when every instant of the
+                # history is positive, so that nothing the caller passes is out of the type's range
+                import gen as _gen
+                ts_ = _gen.times_of(case["ops"])
+                case["tnp"] = 2 if (ts_ and min(ts_) >= 1 and rng2.random() < 0.4) else 1
         if isinstance(case, dict) and rng2.random() < p_pol:
             case["pollute"] = rng2.randint(1, 3)
         yield case
